@@ -312,6 +312,14 @@ def handle (j : Json) : Except String Json := do
     let body := optNat j "body"
     let r := Sched.waitOnFutures evs
     pure (Json.mkObj [("verdict", verdictJson (Sched.managerExit body evs)), ("consumed", Json.num r.2)])
+  | "sched.exit_steps" =>
+    let b := (optNat j "body_raised").getD 0 != 0
+    let w := (optNat j "wait_raises").getD 0 != 0
+    let steps := Sched.exitSteps true b w
+    pure (Json.mkObj [("joins_progress", Json.bool (steps.contains .joinProgress)),
+                      ("reads_progress", Json.bool (steps.contains .readProgress)),
+                      ("closes_bar", Json.bool (steps.contains .closeBar)),
+                      ("sets_completed", Json.bool (steps.contains .setCompleted))])
   | "sched.command" =>
     let outs ← (← reqArr j "outcomes").toList.mapM parseOutcome
     let w ← reqNat j "w"
